@@ -351,7 +351,7 @@ class Runner:
         return r
 
     def run(s, queries, max_workers=None):
-        if s.only: queries = [q for q in queries if s.only in q.name]
+        if s.only: queries = [q for q in queries if any(o in q.name for o in s.only.split(','))]
         prepared = []
         for Q in queries:
             try:
